@@ -385,6 +385,14 @@ func RunCheck(chk *Check, tier string, seed int64) int {
 			Confirmations: confirmations, ReplayCmd: "./run.sh replay " + p}
 		b, _ := json.MarshalIndent(rp, "", " ")
 		os.WriteFile(p, b, 0o644)
+		// a plain unit test that replays the case without the explorer: go test ./replays/<id>/ -run <hash>
+		cj, _ := json.Marshal(c)
+		test := fmt.Sprintf("package replay_test\n\nimport (\n\t\"encoding/json\"\n\t\"testing\"\n\n\t_ \"verif/checks\"\n\t\"verif/core\"\n)\n\n"+
+			"// Replays one recorded case of %s directly against /repo's working tree (class: %s).\n// A case that kills the process fails the test by crashing it.\n"+
+			"func TestReplay_%s(t *testing.T) {\n\tvar c core.Case\n\tif err := json.Unmarshal([]byte(%s), &c); err != nil {\n\t\tt.Fatal(err)\n\t}\n"+
+			"\tchk := core.Lookup(%q)\n\tif chk.Init != nil {\n\t\tchk.Init()\n\t}\n\tif r := core.SafeRun(chk, c); r.V == core.Viol {\n\t\tt.Fatalf(\"%%s: %%s\", r.Why, r.Msg)\n\t}\n}\n",
+			chk.ID, class, h, "`"+strings.ReplaceAll(string(cj), "`", "`+\"`\"+`")+"`", chk.ID)
+		os.WriteFile(filepath.Join(dir, "replay_"+h+"_test.go"), []byte(test), 0o644)
 		replays = append(replays, p)
 		short := msg
 		if len(short) > 600 {
